@@ -651,6 +651,9 @@ def mon_C08(t):
 
 def mon_C09(t):
     out = []
+    # the deadline each key was configured with, followed through the history independently of the expiry the store holds:
+    # put with ttl -> apply time + ttl; put_or_update with ttl -> call time + ttl; remove_time_to_live -> none; otherwise unchanged
+    deadline = {}
     for i, r in enumerate(t.recs):
         if r["skipped"]:
             continue
@@ -658,6 +661,36 @@ def mon_C09(t):
         sb = t.store_before(i)
         if t.before[i]["shut"]:
             continue
+        pe = r["ev"].split()
+        for k, v in read_results(t, i):
+            if v is not None and k in deadline and k in sb and deadline[k] is not None and now > deadline[k]:
+                out.append(fail(t, i, "expired-value-served", "read of key %d returned %d at clock %d although the time-to-live it was last given ran out at %d (the store says %s)" % (k, v, now, deadline[k], sb[k][3])))
+        if pe[0] == "call" and pe[2] == "upsert" and int(pe[3]) in sb:
+            k = int(pe[3])
+            if r["ret"] and r["ret"][0] == 4:
+                deadline.pop(k, None)            # the call panicked half-way: nothing is claimed about this key any more
+            elif k in deadline:
+                if pe[7] == "1":
+                    deadline[k] = None
+                elif pe[6] != "-":
+                    deadline[k] = now + int(pe[6])
+                ent = t.store_after(i).get(k)
+                want = -1 if deadline[k] is None else deadline[k]
+                if ent is not None and ent[3] != want:
+                    out.append(fail(t, i, "wrong-expiry-after-update", "key %d: after %s at clock %d its expiry is %d, the time-to-live it was given ends at %d" % (k, " ".join(pe[2:]), now, ent[3], want)))
+        if pe[0] == "worker" and i in t.executed and t.executed[i] in t.ack_call:
+            a = t.executed[i]
+            ci, call = t.ack_call[a]
+            status = r["acks"][a] if a < len(r["acks"]) else 0
+            if status == 1 and not t.ack_is_update.get(a):
+                if call[0] in ("put", "put_w") or (call[0] == "upsert" and call[4] == "-"):
+                    deadline[int(call[1])] = None
+                elif call[0] in ("put_ttl", "put_w_ttl", "upsert"):
+                    ttl = int(call[3]) if call[0] == "put_ttl" else int(call[4])
+                    deadline[int(call[1])] = now + ttl
+        for k in list(deadline):
+            if k not in t.store_after(i):
+                del deadline[k]
         for k, v in read_results(t, i):
             ent = sb.get(k)
             if v is not None:
